@@ -9,14 +9,17 @@
       run is interrupted with a gap (`C14_pinned_defect`).  The filtering kernels keep their
       results in ordinary `Vec`s which unwinding drops normally (safe Rust).
   (b) propagation: `std::thread::scope` re-raises a worker's panic after joining all workers and
-      `join().expect(..)` panics on a panicked worker; this is library behaviour of `std`,
-      modelled as: the outcome of a run with a panicked worker is `panic`
-      (`C14_outcome_is_panic`), and observed on every run of the check.
+      `join().expect(..)` panics on a panicked worker; this behaviour of `std` is modelled in
+      `Model/Panic.lean` together with the join structure of `Runner::{run, run_map, reduce}`;
+      `C14_propagates`: for every pipeline, accepted execution and invocation the sequential
+      evaluation reaches, some worker evaluates it and the call panics; `C14_evaluated_panics`:
+      whenever any worker evaluates it (find family included); `C14_no_spurious_panic`: otherwise
+      the entry points return what the panic-free model returns.  Observed on every run.
   (c) the workers that did not panic finish: every worker's loop terminates because a panicking
       worker no longer pulls (C10's measure argument applies to the remaining workers).
 -/
 import OrxPar.Lemmas.Resources
-import OrxPar.Model.Terminals
+import OrxPar.Lemmas.Panic
 namespace OrxPar
 open Res
 
@@ -46,12 +49,59 @@ theorem C14_source_after_panic (toks : List Nat) (ops : List SrcOp) :
     st.1.drop.bad = 0 :=
   (src_ledger toks ops).2.1
 
-/-- outcome of a terminal when some worker panicked: `scope`/`join` turn it into a panic of the
-    calling thread — never a value -/
-def outcomeWithPanic (workerPanicked : Bool) (o : Outcome) : Outcome :=
-  if workerPanicked then .panic else o
+/-! ### propagation
 
-/-- **C14 (propagation).** -/
-theorem C14_outcome_is_panic (o : Outcome) : outcomeWithPanic true o = .panic := rfl
+`Model/Panic.lean` transcribes how the three entry points of `Runner` treat their workers
+(`run`: scope only; `run_map`: `join().expect(..)` in a loop; `reduce`: `join().expect(..)`
+interleaved with the fold).  A worker is described by the closure invocations it evaluates
+(`evs t`) and the value it would return (`val t`); it unwinds iff the panicking invocation
+`pe` is among the former. -/
+
+/-- **C14 (propagation, any kernel incl. the find family).** if *some* worker evaluates the
+    panicking invocation, each of the three entry points panics on the calling thread — never a
+    value — whatever the other workers return, in whatever order they were spawned -/
+theorem C14_evaluated_panics {β : Type} (order : List Nat) (evs : Nat → List Event) (pe : Event)
+    (h : ∃ t ∈ order, pe ∈ evs t) (val : Nat → β) (op : β → β → β) (u : Nat → Unit) :
+    RunnerP.reduce (order.map (workerRes evs pe val)) op = .panic ∧
+    RunnerP.runMap (order.map (workerRes evs pe val)) = .panic ∧
+    RunnerP.run (order.map (workerRes evs pe u)) = .panic :=
+  ⟨RunnerP.reduce_panics _ op (workerRes_any_panicked evs pe val order h),
+   RunnerP.runMap_panics _ (workerRes_any_panicked evs pe val order h),
+   by rw [RunnerP.run_eq, workerRes_any_panicked evs pe u order h]; rfl⟩
+
+/-- **C14 (propagation, full-visit terminals).** for every pipeline, every accepted execution of
+    its runner (any tiling, any assignment, any spawn order) and every invocation `pe` the
+    sequential evaluation reaches: some worker evaluates `pe`, hence the call panics -/
+theorem C14_propagates (P : Par) (ex : Exec) (h : ex.Accepts P.src.items) (pe : Event)
+    (hpe : pe ∈ P.stream.log) {β : Type} (task : Nat → List Chunk → β) (op : β → β → β) :
+    RunnerP.reduce (ex.order.map (workerRes (P.workerEvents ex) pe
+        fun t => task (ex.cs t) (ex.chunksOf t))) op = .panic ∧
+    RunnerP.runMap (ex.order.map (workerRes (P.workerEvents ex) pe
+        fun t => task (ex.cs t) (ex.chunksOf t))) = .panic ∧
+    RunnerP.run (ex.order.map (workerRes (P.workerEvents ex) pe fun _ => ())) = .panic :=
+  C14_evaluated_panics ex.order _ pe (Par.some_worker_evaluates P ex h pe hpe) _ op _
+
+/-- **C14 (no spurious panic).** if the panicking invocation is not reached by the sequential
+    evaluation, no worker reaches it and the entry points return exactly what the panic-free
+    model (`Exec.reduce`, `Exec.runMap`) says -/
+theorem C14_no_spurious_panic (P : Par) (ex : Exec) (h : ex.Accepts P.src.items) (pe : Event)
+    (hpe : pe ∉ P.stream.log) {β : Type} (task : Nat → List Chunk → β) (op : β → β → β) :
+    RunnerP.reduce (ex.order.map (workerRes (P.workerEvents ex) pe
+        fun t => task (ex.cs t) (ex.chunksOf t))) op = .ret (ex.order.length, ex.reduce task op) ∧
+    RunnerP.runMap (ex.order.map (workerRes (P.workerEvents ex) pe
+        fun t => task (ex.cs t) (ex.chunksOf t))) = .ret (ex.runMap task) := by
+  have hno := Par.no_worker_evaluates P ex h pe hpe
+  rw [workerRes_map_ok _ pe _ ex.order hno, RunnerP.reduce_ok, RunnerP.runMap_ok]
+  simp [Exec.reduce, Exec.runMap]
+
+/-- the refuted alternative (a seeded change once made `run_map` collect its handles with
+    `flat_map(|h| h.join())`): the panic is swallowed and a value is returned -/
+theorem C14_swallowing_join_returns_a_value :
+    RunnerP.runMapSwallow [WRes.ok 1, WRes.panicked, WRes.ok 3] = .ret [1, 3] := rfl
+
+/-- non-vacuity: two workers, the second one evaluates the panicking invocation `⟨0, 12⟩` -/
+example : (⟨[⟨1, 0, [10, 11]⟩, ⟨2, 2, [12]⟩], [1, 2], fun _ => 2⟩ : Exec).Accepts [10, 11, 12] ∧
+    (⟨0, 12⟩ : Event) ∈ (Par.map {} ⟨[10, 11, 12], true⟩ (callW 0 (· + 1))).stream.log :=
+  ⟨⟨by simp [Tiles], by decide, by simp⟩, by decide⟩
 
 end OrxPar
